@@ -127,19 +127,32 @@ class LinesearchSolver(NonlinearSolver):
                 if not np.isscalar(ref):
                     ref = ref.ravel()
 
-                if var_lower is not None:
+                if var_lower is None:
+                    var_lower = -np.inf
+                elif not np.isscalar(var_lower):
+                    var_lower = var_lower.ravel()
+
+                if var_upper is None:
+                    var_upper = np.inf
+                elif not np.isscalar(var_upper):
+                    var_upper = var_upper.ravel()
+
+                # The scaling map is decreasing where ref < ref0, so the image of the lower
+                # bound is then the upper bound in scaled space and vice versa.
+                bnd0 = (var_lower - ref0) / (ref - ref0)
+                bnd1 = (var_upper - ref0) / (ref - ref0)
+                scaled_lower = np.minimum(bnd0, bnd1)
+                scaled_upper = np.maximum(bnd0, bnd1)
+
+                if np.any(np.isfinite(scaled_lower)):
                     if self._lower_bounds is None:
                         self._lower_bounds = np.full(len(system._outputs), -np.inf)
-                    if not np.isscalar(var_lower):
-                        var_lower = var_lower.ravel()
-                    self._lower_bounds[start:end] = (var_lower - ref0) / (ref - ref0)
+                    self._lower_bounds[start:end] = scaled_lower
 
-                if var_upper is not None:
+                if np.any(np.isfinite(scaled_upper)):
                     if self._upper_bounds is None:
                         self._upper_bounds = np.full(len(system._outputs), np.inf)
-                    if not np.isscalar(var_upper):
-                        var_upper = var_upper.ravel()
-                    self._upper_bounds[start:end] = (var_upper - ref0) / (ref - ref0)
+                    self._upper_bounds[start:end] = scaled_upper
 
                 start = end
         else:
